@@ -57,7 +57,7 @@ PROPS["C11"] = dict(
 
 PROPS["C16"] = dict(
     modules=["Hub.Props.C16"],
-    gens=["c16"],
+    gens=["c16", "c16p"],
     rule="(a) the real doAclCheck over 7 methods x 7 paths x all ACL lists of size <=1 and a stride of size 2 (thorough: all of size 2 plus sampled size 3) "
          "drawn from 9 resources x {read,write} x {allow,deny}; (b) every (method,route) of the registered echo router (path parameters "
          "instantiated) x 11 token kinds (absent, malformed, expired, wrong key, wrong issuer, wrong audience, RS384, HS256 signed with the public key, "
